@@ -15,7 +15,7 @@ from .c10_lists import elem_value, _rot2, _rot3
 # --------------------------------------------------------------------------- #
 # raw value generators: kind x k -> float64 C-contiguous ndarray (or python scalar)
 
-VEC_KINDS = ['v2', 'v3', 'v4', 'v6', 'uv3', 'q', 'sv3', 'dims']
+VEC_KINDS = ['v2', 'v3', 'v4', 'v6', 'uv3', 'q', 'sv3', 'dims', 'v0']
 MAT_KINDS = ['R2', 'T2', 'R3', 'T3', 'so2', 'se2', 'so3', 'se3', 'p2', 'p3', 'm66', 'm33',
              'hp2', 'hp3', 'qN', 'tN']
 SCALAR_KINDS = ['ang', 'sc', 's01', 'int', 'posint', 'tol', 'bool']
@@ -100,6 +100,8 @@ def gen_array(kind, k):
     if kind == 'dims':      # plot volume: [lo, hi] or [xlo, xhi, ylo, yhi(, zlo, zhi)]
         n = [2, 4, 6][k % 3]
         return np.array([(-2.0 - 0.5 * (k % 4)) if i % 2 == 0 else (2.0 + 0.25 * (k % 4)) for i in range(n)])
+    if kind == 'v0':
+        return np.zeros(0)
     if kind == 'v2':
         return np.array([0.5 * k + 0.25, -0.75 * k + 1.0])
     if kind == 'v3':
@@ -193,8 +195,9 @@ def gen_scalar(kind, k):
 
 # forms a vector / matrix argument can take
 VEC_FORMS = ['array', 'list', 'tuple', 'row', 'col', 'intarray', 'intlist', 'view', 'strided',
-             'f32']
-MAT_FORMS = ['array', 'fortran', 'view', 'strided', 'transposed', 'nested', 'intarray']
+             'f32', 'f16', 'bigendian']
+MAT_FORMS = ['array', 'fortran', 'view', 'strided', 'transposed', 'nested', 'intarray', 'f32',
+             'bigendian']
 
 
 def to_form(a, form):
@@ -219,6 +222,10 @@ def to_form(a, form):
         return [int(round(float(x) * 4)) for x in a.ravel()] if a.ndim == 1 else np.array(a)
     if form == 'f32':
         return np.array(a, dtype=np.float32)
+    if form == 'f16':
+        return np.array(a, dtype=np.float16)
+    if form == 'bigendian':
+        return np.array(a, dtype='>f8')
     if form == 'fortran':
         return np.asfortranarray(np.array(a))
     if form == 'transposed':
